@@ -169,7 +169,9 @@ func c08Single(r *core.Rng) string {
 	return b.String()
 }
 
-var c08Trivia = []string{"", " ", "\n", "  \n\t", " /* c */ ", " // lc\n ", "\t", "\n\n  ", "/* \" */", " /* ' + */ "}
+var c08Trivia = []string{"", " ", "\n", "  \n\t", " /* c */ ", " // lc\n ", "\t", "\n\n  ", "/* \" */", " /* ' + */ ",
+	// comments whose text starts or ends with the characters of the comment markers
+	" /*/ x */ ", "/*/*/", " /*//////\n * banner\n //////*/ ", "/***/", " //*/ lc\n", " /*/ \"q\" + */ ", "/* // */"}
 
 func c08Gen(r *core.Rng) *c08Case {
 	c := &c08Case{}
